@@ -924,51 +924,79 @@ func (y *IfFeature) Evaluate(enabled map[string]*Feature) (bool, error) {
 		features: enabled,
 		expr:     y.expr,
 	}
-	e.eval(false)
-	b := e.pop()
-	err := e.lastErr
-	if err == nil && len(e.stack) != 0 {
-		return false, errors.New("syntax err in feature expression:" + y.expr)
+	b := e.parseOr()
+	if e.lastErr == nil && e.peek() != "" {
+		// tokens left after a complete expression
+		e.fail()
 	}
-	return b, err
+	if e.lastErr != nil {
+		return false, e.lastErr
+	}
+	return b, nil
 }
 
+// recursive descent over RFC 7950 Sec 7.20.2 grammar
+//
+//	if-feature-expr   = if-feature-term [sep "or" sep if-feature-expr]
+//	if-feature-term   = if-feature-factor [sep "and" sep if-feature-term]
+//	if-feature-factor = "not" sep if-feature-factor / "(" if-feature-expr ")" / identifier-ref-arg
 type ifFeatureEval struct {
 	features map[string]*Feature
 	expr     string
-	stack    []bool
 	pos      int
 	lastErr  error
 }
 
-func (y *ifFeatureEval) eval(greedy bool) {
-	for !y.end() {
-		tok := y.next()
-		switch tok {
-		case "(":
-			y.eval(false)
-		case ")":
-			return
-		case "and":
-			y.eval(true)
-			a, b := y.pop(), y.pop()
-			y.push(a && b)
-		case "not":
-			y.eval(true)
-			y.push(!y.pop())
-		case "or":
-			y.eval(false)
-			a, b := y.pop(), y.pop()
-			y.push(a || b)
-		default:
-			_, found := y.features[tok]
-			y.push(found)
-		}
-		if greedy {
-			return
-		}
+func (y *ifFeatureEval) fail() {
+	if y.lastErr == nil {
+		y.lastErr = errors.New("syntax err in feature expression:" + y.expr)
 	}
-	return
+}
+
+func (y *ifFeatureEval) parseOr() bool {
+	b := y.parseAnd()
+	for y.lastErr == nil && y.peek() == "or" {
+		y.next()
+		c := y.parseAnd()
+		b = b || c
+	}
+	return b
+}
+
+func (y *ifFeatureEval) parseAnd() bool {
+	b := y.parseNot()
+	for y.lastErr == nil && y.peek() == "and" {
+		y.next()
+		c := y.parseNot()
+		b = b && c
+	}
+	return b
+}
+
+func (y *ifFeatureEval) parseNot() bool {
+	tok := y.next()
+	switch tok {
+	case "not":
+		return !y.parseNot()
+	case "(":
+		b := y.parseOr()
+		if y.next() != ")" {
+			y.fail()
+		}
+		return b
+	case "", ")", "and", "or":
+		y.fail()
+		return false
+	}
+	_, found := y.features[tok]
+	return found
+}
+
+func (y *ifFeatureEval) peek() string {
+	save := y.pos
+	tok := y.next()
+	y.pos = save
+	return tok
 }
 
 func (y *ifFeatureEval) end() bool {
@@ -1002,21 +1030,6 @@ func (y *ifFeatureEval) next() string {
 brk:
 	tok := y.expr[start:y.pos]
 	return tok
-}
-
-func (y *ifFeatureEval) pop() bool {
-	if len(y.stack) == 0 {
-		y.lastErr = errors.New("syntax err in feature expression:" + y.expr)
-		return false
-	}
-	last := len(y.stack) - 1
-	b := y.stack[last]
-	y.stack = y.stack[0:last]
-	return b
-}
-
-func (y *ifFeatureEval) push(b bool) {
-	y.stack = append(y.stack, b)
 }
 
 type When struct {
